@@ -112,8 +112,10 @@ class C16(Prop):
                   "calls of the same API are the reference for query consistency (their own correctness is C05/C07/C08/C13/C20).")
     ASSUMPTIONS = ["every loop iteration with a yield site is a yield point (should_yield forced to True)",
                    "reference item sets come from atomic calls of the same queries between scheduler steps",
-                   "known finding K4: a network query interleaved with webentity creation can combine resolutions taken at "
-                   "different moments; tolerated only within the relaxed bound 'each page resolves as in SOME snapshot'"]
+                   "known finding K4: a query interleaved with webentity creation can combine membership/resolution and page "
+                   "attributes taken at different moments; network cells are tolerated only within the relaxed bound 'each page "
+                   "resolves as in SOME snapshot', other queries only when a concurrent request of the schedule created a "
+                   "webentity and (page-keyed answers) the page was a member at some moment"]
 
     # -- drawing ------------------------------------------------------------------------------------
     def draw_requests(self, case, data, n=None, kinds=None):
@@ -188,12 +190,16 @@ class C16(Prop):
         snaps = {i: [] for i in queries}
         dirty = {i: True for i in queries}
 
+        members = {i: set() for i in queries}
+
         def take(i):
             r = reqs[i]
             if r[0] in ("q-network", "q-network-slow"):
                 snaps[i].append(atomic_network_state(case, r[1]))
             else:
                 snaps[i].append(atomic_items(t, r))
+                if r[0] in ("q-pages", "q-crawled", "q-mostlinked"):
+                    members[i] |= set(bytes(g["lru"]) for g in t.get_webentity_pages(r[1], list(r[2])))
             dirty[i] = False
 
         def on_step(when, j, run):
@@ -267,7 +273,9 @@ class C16(Prop):
             if r[0] in ("q-network", "q-network-slow"):
                 ch = self.check_network(case, r, run.results[i], snaps[i])
             else:
-                ch = self.check_items(case, r, run.results[i], snaps[i])
+                created = any(reqs[j][0] in sched.WRITERS and getattr(run.results[j], "created_webentities", None)
+                              for j in range(len(reqs)))
+                ch = self.check_items(case, r, run.results[i], snaps[i], created_during=created, members_any=members[i])
             changed = changed or ch
         # classification
         writers = [set(sched.request_lrus(r)) for r in reqs if r[0] in sched.WRITERS]
@@ -287,7 +295,7 @@ class C16(Prop):
                                 "steps_per_request": run.steps})
         return run
 
-    def check_items(self, case, req, result, snaps):
+    def check_items(self, case, req, result, snaps, created_during=False, members_any=frozenset()):
         ctx = case.ctx
         ans = answer_items(req, result)
         keys = [k for k, _ in ans]
@@ -309,6 +317,15 @@ class C16(Prop):
                      % (req[0], sorted(missk, key=repr)[:3]), case)
         extra = [x for x in aset if x not in may_items]
         if extra:
+            # known finding K4 (no snapshot isolation): when another request creates a webentity above existing pages while the
+            # query runs, the traversal decides membership at one moment (when it stacks the node) and reads the page's mark,
+            # links or resolution at a later one.  Tolerated ONLY if a webentity was created by a concurrent request of this
+            # schedule AND, for page-keyed answers, the page was a member of the webentity at some moment.
+            page_keyed = req[0] in ("q-pages", "q-crawled", "q-mostlinked")
+            ok_keys = members_any if page_keyed else None
+            if created_during and all((not page_keyed) or (k in ok_keys) for k, _ in extra) \
+                    and ctx.tolerate("K4", "%s: %r" % (req[0], sorted(extra, key=repr)[:2])):
+                return True
             ctx.fail("query-invents-item", "%s answer contains %r which qualified at none of the %d moments of its execution"
                      % (req[0], sorted(extra, key=repr)[:3], len(snaps)), case)
         return must_items != may_items
@@ -408,7 +425,7 @@ class C16(Prop):
 
     # -- exhaustive enumeration of all interleavings of two requests ---------------------------------------------
     def extra_checks(self, ctx, tier, seed, shard, nshards):
-        n_scen = 2 if tier == "quick" else 14
+        n_scen = 4 if tier == "quick" else 16
         cap = 140 if tier == "quick" else 924
 
         def scenario(data):
@@ -418,7 +435,8 @@ class C16(Prop):
             try:
                 for _ in range(data.draw(st.integers(2, 6))):
                     case.step(data.draw(op_strategy(v, case.led, self.weights(), cfg.backend, case.ops)))
-                two = [("batch", "batch"), ("batch", "rule"), ("batch", "q-network"), ("batch", "q-pages"),
+                two = [("batch", "batch"), ("batch", "rule"), ("batch", "q-network"), ("batch", "q-network"), ("batch", "q-network"),
+                       ("batch", "q-pages"),
                        ("batch", "q-pagelinks"), ("rule", "q-network"), ("batch", "q-mostlinked"), ("rule", "q-children"),
                        ("rule", "q-pages"), ("batch", "q-network-slow"), ("batch", "q-inlinks")]
                 three = [("batch", "batch", "q-network"), ("batch", "rule", "q-pages"), ("batch", "batch", "batch"),
